@@ -121,6 +121,10 @@ namespace {
   struct Holder {
     std::shared_ptr<Tracked> p;
   };
+  // a C++ object that hands out its part through a getter returning `const std::shared_ptr<Tracked> &`
+  struct PartOwner {
+    std::shared_ptr<Tracked> part;
+  };
 
   // ------------------------------------------------------------------ generator
   struct Gen {
@@ -164,7 +168,7 @@ namespace {
           sink->push_back(out); // the statements of the outermost block are kept apart so that replays can be shrunk
           out.clear();
         }
-        const int k = int(rng.below(d <= 0 ? 12 : 33));
+        const int k = int(rng.below(d <= 0 ? 12 : 35));
         switch (k) {
         case 0:
         case 1:
@@ -355,6 +359,29 @@ namespace {
           }
           break;
         }
+        case 34: {
+          // an assignment is the last expression of a function, so its value is what the function returns: the
+          // registered operator= hands back a C++ reference to the left-hand side, a local that is gone by then
+          const std::string z = nm("z");
+          switch (rng.below(3)) {
+          case 0: out += "t(fun() { var a = " + source(objs) + "; a = " + source(objs) + "; }().value()); "; break;
+          case 1: out += "var " + z + " = fun() { var a = Tracked(" + num() + "); a = Tracked(" + num() + ") }(); by_cref(" + z + "); t(" + z + ".value()); "; objs.push_back(z); break;
+          default: out += "var " + z + " = fun(p) { var a = Tracked(" + num() + "); if (p) { a = Tracked(" + num() + ") } }(true); by_cref(" + z + "); "; break;
+          }
+          break;
+        }
+        case 33: {
+          // a getter returning `const shared_ptr<T> &`: what the script keeps shares ownership, so it survives the
+          // owner replacing its part (or dying)
+          const std::string po = nm("po");
+          const std::string pp = nm("pp");
+          switch (rng.below(3)) {
+          case 0: out += "var " + po + " = PartOwner(" + num() + "); var " + pp + " = " + po + ".part(); " + po + ".replace_part(" + num() + "); by_cref(" + pp + "); t(" + pp + ".value()); t(" + po + ".part().value()); "; break;
+          case 1: out += "var " + pp + " = fun() { var " + po + " = PartOwner(" + num() + "); return " + po + ".part() }(); by_cref(" + pp + "); t(" + pp + ".value()); "; break;
+          default: out += "var " + po + " = PartOwner(" + num() + "); var " + pp + " = [" + po + ".part()]; " + po + ".replace_part(" + num() + "); by_ref(" + pp + "[0]); keep(" + pp + "[0]); "; break;
+          }
+          break;
+        }
         case 25: {
           // a const derived object held by shared_ptr, converted to its base through a typed script
           // parameter; the converted value outlives the call and the temporary it came from
@@ -431,6 +458,11 @@ namespace {
       } else if (ti.bare_equal(user_type<dispatch::Dynamic_Object>())) {
         for (auto &kv : boxed_cast<const dispatch::Dynamic_Object &>(bv).get_attrs()) {
           reachable(kv.second, e, out, depth + 1);
+        }
+      } else if (ti.bare_equal(user_type<PartOwner>())) {
+        const PartOwner &o = boxed_cast<const PartOwner &>(bv);
+        if (o.part) {
+          out.insert(o.part->id);
         }
       } else if (ti.bare_equal(user_type<Holder>())) {
         const Holder &h = boxed_cast<const Holder &>(bv);
@@ -535,6 +567,12 @@ namespace {
         e.eval("def as_base(Tracked b) { return b }");
         e.add(fun([](std::shared_ptr<Tracked> &p, int v) { p = std::make_shared<Tracked>(v); }), "reseat");
         e.add(fun([](const std::function<void(Tracked)> &f, int v) { f(Tracked(v)); }), "call_with_value");
+        e.add(user_type<PartOwner>(), "PartOwner");
+        e.add(fun([](int v) { return PartOwner{std::make_shared<Tracked>(v)}; }), "PartOwner");
+        e.add(fun([](const PartOwner &o) -> const std::shared_ptr<Tracked> & { return o.part; }), "part");
+        e.add(fun([](PartOwner &o, int v) { o.part = std::make_shared<Tracked>(v); }), "replace_part");
+        // (only used by the known-finding replay C11-K4: a non-owning reference into the owner)
+        e.add(fun([](const PartOwner &o) -> const Tracked & { return *o.part; }), "part_ref");
         e.add(fun([](int v) { return std::shared_ptr<Tracked>(std::make_shared<TrackedDerived>(v)); }), "make_derived_as_base");
         e.add(fun([](const TrackedDerived &d) { return d.value(); }), "takes_derived");
         e.add(fun([](const Tracked &t) -> const Tracked * {
@@ -559,6 +597,18 @@ namespace {
           res.outcome = "returned";
         } catch (...) {
           res.outcome = "!" + describe_current_exception(&e);
+        }
+        if (plan.has("host_call") && plan.at("host_call").truthy()) {
+          // the host calls a registered function through a std::function it got from the engine, from plain C++ (no
+          // script call is active), with an argument that needs the user conversion: the converted temporary must
+          // live until the callee has returned - and no longer
+          try {
+            auto f = e.eval<std::function<int(TSource)>>("by_cref");
+            (void)f(TSource{77});
+            auto g = e.eval<std::function<int(TSource)>>("fun(Tracked t) { return by_cref(t) + by_value(t) }");
+            (void)g(TSource{78});
+          } catch (...) {
+          }
         }
         // quiescence: one evaluation with a function call flushes the conversion saves
         try {
@@ -662,6 +712,7 @@ namespace {
       p["stmts"] = stmts;
       p["tail"] = J(tails[plan.below(5)]);
       p["sample_seed"] = J(static_cast<unsigned long long>(faults.next() >> 1));
+      p["host_call"] = J(plan.chance(400));
       J sh = J::array();
       sh.push(J("stmts"));
       p["shrinkable"] = sh;
